@@ -30,5 +30,6 @@ let () =
         | [] -> print_endline ("| " ^ disk_s disk)
         | _ -> failwith "seq"
       in go (disk_of d) invs
+    | ["stored"; ms] -> Printf.printf "%d\n" (int_of_z (stored_up (z_of_int (int_of_string ms))) / 1000)
     | [] -> ()
     | _ -> failwith ("bad line: " ^ line)) ic
